@@ -26,6 +26,7 @@
 #include <nstd/Map.hpp>
 
 extern char** environ;
+#define CHILD_PATH "./ac"
 
 // ---- per-case data ---------------------------------------------------------------------------
 enum { MAXOPT = 8, MAXSTR = 32, MAXENV = 8 };
@@ -81,17 +82,21 @@ static void cursor_out(Process::Arguments* a, char** base)
   printf(" | %ld %ld %d %d\n", idx, pos, a->inOpt ? 1 : 0, a->skipOpt ? 1 : 0);
 }
 
-static void do_parse(long c)
+// parse   : Arguments(argc, argv) with argv[0] = "prog", read() until false, then twice more
+// parse0  : Arguments(0, empty array)  (the constructor steps past argvEnd)
+static void do_parse(long c, bool argc0)
 {
   if(ntable == 0) { printf("%ld ?no-table\n", c); return; }
   // the table and argv arrays are exact-size heap blocks as well
   Process::Option* t = (Process::Option*)malloc(sizeof(Process::Option) * (ntable ? ntable : 1));
   memcpy(t, table, sizeof(Process::Option) * ntable);
-  int argc = nstrs + 1;
-  char** argv = (char**)malloc(sizeof(char*) * argc);
+  int argc = argc0 ? 0 : nstrs + 1;
+  char** argv = (char**)malloc(sizeof(char*) * (argc ? argc : 1));
   char prog[] = "prog";
-  argv[0] = prog;
-  for(int i = 0; i < nstrs; ++i) argv[i + 1] = strs[i];
+  if(!argc0) {
+    argv[0] = prog;
+    for(int i = 0; i < nstrs; ++i) argv[i + 1] = strs[i];
+  }
   Process::Arguments* a;
   switch(ntable) {
   case 1: a = mk<1>(argc, argv, t); break;
@@ -109,7 +114,15 @@ static void do_parse(long c)
   for(;;) {
     character = -1;
     bool ok = a->read(character, argument);
-    if(!ok) { printf("%ld end", c); cursor_out(a, argv); break; }
+    if(!ok) {
+      printf("%ld end", c); cursor_out(a, argv);
+      for(int k = 0; k < 2; ++k) {              // false is final: the same answer, the same cursor
+        character = -1;
+        bool again = a->read(character, argument);
+        printf("%ld again %d", c, again ? 1 : 0); cursor_out(a, argv);
+      }
+      break;
+    }
     printf("%ld r %d ", c, character);
     puthexs((const char*)argument, argument.length());
     cursor_out(a, argv);
@@ -280,9 +293,46 @@ static bool env_is_inherited(const unsigned char* d, size_t n)
   return *e == 0;
 }
 
+// Watchdog of one launch: a child that never sees end-of-file on its stdin (or never ends) would
+// block read()/join() for the whole per-case budget.  After the launch's own budget the child is
+// killed (everything blocked on it returns) and the case reports `! timeout`; should that not
+// unblock the harness either, the second alarm ends the process (vf.py then reports the timeout).
+static volatile pid_t watch_pid = 0;
+static volatile int watch_fired = 0;
+static void on_alarm(int)
+{
+  if(watch_fired++ == 0) {
+    if(watch_pid > 0) ::kill(watch_pid, SIGKILL);
+    alarm(5);
+  } else {
+    signal(SIGALRM, SIG_DFL);
+    raise(SIGALRM);
+  }
+}
+static void watchdog_arm(unsigned seconds)
+{
+  struct sigaction sa; memset(&sa, 0, sizeof(sa));
+  sa.sa_handler = on_alarm; sa.sa_flags = SA_RESTART;
+  sigaction(SIGALRM, &sa, 0);
+  watch_fired = 0; watch_pid = 0;
+  alarm(seconds);
+}
+static void watchdog_disarm()
+{
+  alarm(0);
+  signal(SIGALRM, SIG_DFL);
+  watch_pid = 0;
+  alarm((unsigned)vh::case_timeout());      // the per-case watchdog of vh::run is back
+}
+
 static void do_launch(long c, vh::Tok& t)
 {
-  // launch <api:open|start> <form:cmd|argv|argv0|list> <streams> <exit> <mode> <size> <seed> <hex: command line or executable>
+  // launch <api:open|start> <form:cmd|argv|argv0|list> <streams> <exit> <mode> <size> <seed> <hex: command line or executable> [profile]
+  // profile: norm (default) | again (a second open/start on the running Process must fail with EINVAL)
+  //          | fd0 (descriptor 0 of the parent is closed while the process is opened)
+  //          | noexec (the executable does not exist: the child reports on stderr and exits with EXIT_FAILURE)
+  const char* profile = t.n >= 10 ? t.v[9] : "norm";
+  bool p_again = !strcmp(profile, "again"), p_fd0 = !strcmp(profile, "fd0"), p_noexec = !strcmp(profile, "noexec");
   const char* api = t.v[1]; const char* form = t.v[2];
   unsigned streams = (unsigned)atoi(t.v[3]);
   int code = atoi(t.v[4]), mode = atoi(t.v[5]);
@@ -308,13 +358,16 @@ static void do_launch(long c, vh::Tok& t)
   int save0 = dup(0), save1 = dup(1), save2 = dup(2);
   if(!(streams & Process::stdoutStream)) { int fd = ::open("./ac.out", O_CREAT | O_TRUNC | O_WRONLY, 0600); dup2(fd, 1); ::close(fd); }
   if(!(streams & Process::stderrStream)) { int fd = ::open("./ac.err", O_CREAT | O_TRUNC | O_WRONLY, 0600); dup2(fd, 2); ::close(fd); }
-  if(!(streams & Process::stdinStream)) {
+  if(p_fd0)
+    ::close(0);                                  // pipe() may now hand out descriptor 0
+  else if(!(streams & Process::stdinStream)) {
     int fd = ::open("./ac.in", O_CREAT | O_TRUNC | O_WRONLY, 0600);
     size_t off = 0; while(off < size) { ssize_t w = ::write(fd, payload + off, size - off); if(w <= 0) break; off += (size_t)w; }
     ::close(fd);
     fd = ::open("./ac.in", O_RDONLY); dup2(fd, 0); ::close(fd);
   }
 
+  watchdog_arm(4 + (unsigned)(size >> 18));        // 4 s + 4 s per MiB of payload
   Process* p = new Process;
   bool ok = false;
   if(!strcmp(form, "cmd")) {
@@ -335,10 +388,24 @@ static void do_launch(long c, vh::Tok& t)
     free(argv);
   }
   int err = errno;
-  dup2(save0, 0); dup2(save1, 1); dup2(save2, 2);
-  ::close(save0); ::close(save1); ::close(save2);
+  watch_pid = ok ? (pid_t)p->pid : 0;
+  int again_r[4] = {-1, -1, -1, -1}, again_e[4] = {0, 0, 0, 0};
+  if(ok && p_again) {                            // the Process is running: all four entry points must refuse
+    String exe(CHILD_PATH, strlen(CHILD_PATH));
+    char* none[1] = {0};
+    errno = 0; again_r[0] = p->open(exe, 1, none, streams, env) ? 1 : 0; again_e[0] = errno;
+    errno = 0; again_r[1] = p->open(exe, streams, env) ? 1 : 0; again_e[1] = errno;
+    errno = 0; again_r[2] = p->start(exe, 1, none, env) != 0 ? 1 : 0; again_e[2] = errno;
+    errno = 0; again_r[3] = p->start(exe, env) != 0 ? 1 : 0; again_e[3] = errno;
+  }
+  if(!p_fd0) dup2(save0, 0);
+  dup2(save1, 1); dup2(save2, 2);
+  ::close(save1); ::close(save2);
 
   if(!ok) {
+    if(p_fd0) dup2(save0, 0);
+    ::close(save0);
+    watchdog_disarm();
     printf("%ld L fail %d\n", c, err);
     delete p; free(payload); free(first);
     return;
@@ -367,6 +434,15 @@ static void do_launch(long c, vh::Tok& t)
   bool joined = p->join(exitCode);
   bool running = p->isRunning();
   delete p;
+  if(p_fd0) dup2(save0, 0);                        // descriptor 0 of the harness is back
+  ::close(save0);
+  int timed_out = watch_fired;
+  watchdog_disarm();
+  if(timed_out) {
+    printf("%ld ! timeout\n", c);
+    free(out.d); free(errb.d); free(payload); free(first);
+    return;
+  }
   if(!(streams & Process::stdoutStream)) buf_file(out, "./ac.out");
   if(!(streams & Process::stderrStream)) buf_file(errb, "./ac.err");
 
@@ -387,9 +463,20 @@ static void do_launch(long c, vh::Tok& t)
   const unsigned char* od = found ? out.d + h : 0;
   bool out_ok = (mode & 1) ? (on == size && (size == 0 || !memcmp(od, payload, size))) : on == 0;
   bool err_ok = (mode & 2) ? (errb.n == size && (size == 0 || !memcmp(errb.d, payload, size))) : errb.n == 0;
-  printf(" join=%d exit=%u running=%d out=%lu:%s err=%lu:%s io=%s\n", joined ? 1 : 0, (unsigned)exitCode, running ? 1 : 0,
+  if(p_noexec) {                                   // "<executable>: <strerror(ENOENT)>\n" on the child's stderr, nothing else
+    char exe[256]; size_t el = 0;                 // command-line form: the executable is the first word
+    while(first[el] && (strcmp(form, "cmd") || first[el] != ' ') && el + 1 < sizeof(exe)) { exe[el] = first[el]; ++el; }
+    exe[el] = 0;
+    char msg[512]; int ml = snprintf(msg, sizeof(msg), "%s: %s\n", exe, strerror(ENOENT));
+    err_ok = ml > 0 && errb.n == (size_t)ml && !memcmp(errb.d, msg, (size_t)ml);
+    out_ok = out.n == 0;
+    on = out.n;
+  }
+  printf(" join=%d exit=%u running=%d out=%lu:%s err=%lu:%s io=%s", joined ? 1 : 0, (unsigned)exitCode, running ? 1 : 0,
          (unsigned long)on, out_ok ? "ok" : "bad", (unsigned long)errb.n, err_ok ? "ok" : "bad",
          (wa.failed || readfail) ? "fail" : "ok");
+  if(p_again) printf(" again=%d:%d,%d:%d,%d:%d,%d:%d", again_r[0], again_e[0], again_r[1], again_e[1], again_r[2], again_e[2], again_r[3], again_e[3]);
+  printf("\n");
   free(out.d); free(errb.d); free(payload); free(first);
 }
 
@@ -401,7 +488,9 @@ static void op(long c, long, vh::Tok& t)
   } else if(!strcmp(t.v[0], "env") && t.n >= 3) {
     if(nenv < MAXENV) { envk[nenv] = cstr_exact(t.v[1]); envv[nenv] = cstr_exact(t.v[2]); ++nenv; }
   } else if(!strcmp(t.v[0], "parse")) {
-    do_parse(c);
+    do_parse(c, false);
+  } else if(!strcmp(t.v[0], "parse0")) {
+    do_parse(c, true);
   } else if(!strcmp(t.v[0], "getopt")) {
     do_getopt(c);
   } else if(!strcmp(t.v[0], "split") && t.n >= 2) {
